@@ -205,6 +205,8 @@ class Bounder:
         if op == "load":
             # memory-carried value: every store in this function that can supply it must be bounded where it happens
             loc = u.ops[0]
+            if self._validated_outparam(u, at, Q):
+                return True
             stores = [i for i in self.f.insts() if i.op == "store" and _same_loc(self.prog, self.f, i.ops[1], loc)]
             reaching = [s for s in stores if self._may_reach(s, u)]
             if not reaching:
@@ -222,6 +224,62 @@ class Bounder:
             return all(self.bounded(s.ops[0], s, Q, depth + 1, seen) for s in reaching)
         if op in ("add", "mul", "shl", "or"):
             return False
+        return False
+
+    def _validated_outparam(self, load, at, Q):
+        """the value was produced through an out-parameter of a helper that range-checks it before reporting success,
+        and the use is dominated by that helper's success:   if (get_size(hdr, &size)) fail;  use(size)"""
+        from .effects import success_points
+        loc = strip_casts(load.ops[0])
+        if not (loc.is_inst and loc.op == "alloca") or Q.const is None:
+            return False
+        for c in self.f.uses.get(loc, []):
+            if c.op != "call" or not c.callee or not self.f.inst_dominates(c, load):
+                continue
+            g = self.prog.fn(c.callee, self.f.unit)
+            if g is None or g.decl:
+                continue
+            k = [i for i, a in enumerate(c.ops) if strip_casts(a) is loc]
+            if not k:
+                continue
+            # the use must lie on the helper's success edge (result == 0)
+            on_success = False
+            for cond, outcome, br in self.guards(at.bb):
+                if cond.is_inst and cond.op == "icmp" and cond.pred in ("eq", "ne") and strip_casts(cond.ops[0]) is c and \
+                        cond.ops[1].is_const and cond.ops[1].is_int and cond.ops[1].sval == 0 and outcome == (cond.pred == "eq"):
+                    on_success = True
+            if not on_success:
+                continue
+            # no later writer of the local between the helper and the load
+            later = [w for w in self.f.uses.get(loc, []) if w is not c and w.op in ("call", "store") and
+                     self.f.inst_dominates(c, w) and self.f.inst_dominates(w, load)]
+            if later:
+                continue
+            g.build()
+            par = g.params[k[0]]
+            Bg = Bounder(self.prog, g)
+            ok = True
+            pts = success_points(g)
+            if not pts:
+                ok = False
+            for b in pts:
+                found = False
+                for cond, outcome, br in g.guards_at(b):
+                    if not (cond.is_inst and cond.op == "icmp"):
+                        continue
+                    for o in cond.ops:
+                        o2 = _uncast(o)
+                        if o2.is_inst and o2.op == "load" and strip_casts(o2.ops[0]) is par:
+                            for (bv, strict) in Bg.rel_facts(b, o2):
+                                bv2 = _uncast(bv)
+                                if bv2.is_arg and bv2.idx < len(c.ops):
+                                    bv2 = _uncast(c.ops[bv2.idx])     # the limit is the helper's parameter
+                                if bv2.is_const and bv2.is_int and bv2.uval <= Q.const:
+                                    found = True
+                if not found:
+                    ok = False
+            if ok:
+                return True
         return False
 
     def _bounded_on_edge(self, val, pred, succ, Q, depth, seen):
